@@ -263,7 +263,14 @@ func genPair(t *rapid.T) pair {
 	if reqId != "" {
 		hdr["request-id"] = reqId
 	}
-	esc := func(s string) string { return strings.ReplaceAll(url.PathEscape(s), "%2F", "/") }
+	// a client may leave the slashes of an id in the path or escape them: both address the same id
+	keepSlashEscapes := rapid.Bool().Draw(t, "escapeSlashes")
+	esc := func(s string) string {
+		if keepSlashEscapes {
+			return url.PathEscape(s)
+		}
+		return strings.ReplaceAll(url.PathEscape(s), "%2F", "/")
+	}
 	h, d := genMap(t, "hdrs"), genStr(t, dataPool, "data")
 	tags := genMap(t, "tags")
 	timeout := rapid.Int64Range(0, 1<<40).Draw(t, "timeout")
@@ -511,4 +518,26 @@ func TestEquiv(t *testing.T) {
 		ops = nil // every operation
 	}
 	equivalence(t, f, stats, prop, ops)
+}
+
+// TestRefusals — the front-end end of C12 ("exactly one response, also under back-pressure and shutdown"): what the
+// kernel answers when it turns a request away (shutting down 50300, api queue full 50301, aio queue full 50302,
+// scheduler queue full 50303 — errors WITHOUT a cause) must reach the client as a response through every endpoint of
+// both protocols: a handler that panics drops the reply (HTTP) or takes the process down (gRPC). The exhaustive
+// matrix of C15 is run and its findings for these deliveries are C12's.
+func TestRefusals(t *testing.T) {
+	prop := core.Env("VERIF_PROP", "C12")
+	stats := core.NewStats(prop, "tier (f), front ends: every endpoint of both protocols x the kernel's refusals (50300 shutting down, 50301 api queue full, 50302 aio queue full, 50303 scheduler queue full, delivered as errors without a cause, as the kernel does) through the real gin handler and the real gRPC service methods: each must be rendered as a response (HTTP 503 with an error body carrying the status, gRPC Unavailable), never a panic / dropped reply. Exhaustive on every run. Non-trivial: every combination. Distinct = (endpoint, status).")
+	defer stats.Write()
+	f := NewFronts()
+	defer f.Close()
+	for _, x := range matrix(f, stats) {
+		for _, code := range []string{"50300/", "50301/", "50302/", "50303/"} {
+			if strings.Contains(x.msg, "kernel outcome "+code) {
+				core.SaveFailure("last", map[string]any{"violation": x.msg})
+				t.Fatalf("VIOLATION %s a refusal of the kernel does not reach the client: %s", prop, x.msg)
+			}
+		}
+	}
+	stats.Extra["exhaustive"] = true
 }
